@@ -29,7 +29,7 @@ na = [{"property_id": pid, "reason": NOT_YET.get(pid, "check not built yet in th
       for pid in ALL if pid not in registry.PROPS]
 manifest = {
     "version": 1,
-    "setup_cmd": "/venv/bin/python harness/translate/cbits.py && /venv/bin/python harness/translate/omp.py && /venv/bin/python harness/translate/guards.py && /venv/bin/python harness/translate/persist.py && cd lean && lake build",
+    "setup_cmd": "/venv/bin/python harness/translate/cbits.py && /venv/bin/python harness/translate/omp.py && /venv/bin/python harness/translate/guards.py && /venv/bin/python harness/translate/persist.py && /venv/bin/python harness/translate/pyint.py && cd lean && lake build",
     "hooks": {"guard": "FQE_VERIF", "enable": "no source hooks: checks scratch-build /repo's working tree "
               "(harness/build_repo.py) and drive the public API",
               "baseline_off_cmd": "cd /repo && /venv/bin/python -m pytest -ra -q -p no:cacheprovider --timeout=900 "
